@@ -1188,7 +1188,12 @@ class NamespaceManager(dict):
             local_part = qname.localpart
             if not prefix:
                 # the namespace is a default namespace
-                if self._default == namespace:
+                if ":" in local_part:
+                    # printed without a prefix, the name would read as a
+                    # prefixed one (or as a URI): it needs a prefix of its own
+                    dn_namespace = self.add_namespace(Namespace("dn", namespace.uri))
+                    new_qname = dn_namespace[local_part]
+                elif self._default == namespace:
                     # the same default namespace is defined
                     new_qname = self._default[local_part]
                 elif self._default is None:
